@@ -179,6 +179,20 @@ COPIERS = {"deepcopy", "copy.deepcopy", "build_processors", "create_new_processo
 DEEPCOPY = {"deepcopy", "copy.deepcopy"}
 
 
+COPIER_METHODS = {"replace", "update_processor", "__deepcopy__"}
+
+
+def _is_copier_call(expr) -> bool:
+    """A call whose result is a fresh copy: create_new_processor(...), build_processors(...), x.replace(...),
+    self.update_processor(...).  (Each of these is itself a checked copy site.)"""
+    if not isinstance(expr, ast.Call):
+        return False
+    fname = ast.unparse(expr.func)
+    if fname in COPIERS or fname.split(".")[-1] in (COPIERS - DEEPCOPY):
+        return True
+    return isinstance(expr.func, ast.Attribute) and expr.func.attr in COPIER_METHODS
+
+
 def _root(node):
     while isinstance(node, (ast.Attribute, ast.Subscript, ast.Starred)):
         node = node.value
@@ -187,7 +201,7 @@ def _root(node):
 
 def _mentions(expr, names) -> bool:
     """Does expr mention one of `names` outside a deepcopy(...) call?"""
-    if _is_call_to(expr, DEEPCOPY):
+    if _is_call_to(expr, DEEPCOPY) or _is_copier_call(expr):
         return False
     if isinstance(expr, ast.Name):
         return expr.id in names
@@ -275,6 +289,8 @@ def site_effect(fn: ast.FunctionDef, src_name: str, what: str) -> str:
                                f"reader nor a known mutator")
             elif any(_mentions(a, t) for a in args):
                 short = fname.split(".")[-1]
+                if short in ("run_pipeline", "run_exposure_pipeline", "run"):
+                    return "Touches"                # the caller's own processor is run (a run works in place)
                 if fname in COPIERS or short in COPIERS or fname in PURE_CALLS or fname.startswith("logging.") \
                         or fname.startswith("log.") or fname.startswith("logger.") or fname.startswith("self._log."):
                     continue
@@ -388,7 +404,10 @@ def extract(repo: Path) -> dict:
         ("build_processors", find_func(fit, "build_processors"), "processor"),
         ("ModelFittingDataTree.__init__", find_func(fit, "__init__", "ModelFittingDataTree"), "processor"),
     ]
-    effects = [(name, site_effect(fn, src, name)) for name, fn, src in copy_fns]
+    effects = [(name, site_effect(fn, src, name)) for name, fn, src in copy_fns + [
+        ("Observation._run_single_pipeline", find_func(obs, "_run_single_pipeline", "Observation"), "processor"),
+        ("dask._run_pipelines_array_to_datatree", find_func(dsk, "_run_pipelines_array_to_datatree"), "processor"),
+    ]]
     vcopy = [(name, value_copied(fn, name)) for name, fn, src in copy_fns]
     return dict(proc_fields=pf, group_fields=gf, sites=sites, effects=effects, value_copy=vcopy)
 
@@ -418,7 +437,8 @@ FALLBACK_DATA = dict(
         "ModelFittingDataTree.__init__", "Observation._run_single_pipeline",
         "dask._run_pipelines_array_to_datatree", "ModelFittingDataTree.fitness",
         "ModelFittingDataTree._apply_parameters")],
-    effects=[(s, "Pure") for s in COPY_SITES],
+    effects=[(s, "Pure") for s in COPY_SITES + ("Observation._run_single_pipeline",
+                                                "dask._run_pipelines_array_to_datatree")],
     value_copy=[(s, s == "ModelFittingDataTree.__init__") for s in COPY_SITES],
 )
 FALLBACK = render(FALLBACK_DATA)
